@@ -29,6 +29,9 @@ func (hw *httpWorld) newTunnel(i int, connect bool) *httpTunnel {
 	if m := hw.w.Net.Cfg().MSS; m < 64 {
 		max = 2048
 	}
+	if hw.tunnelMax > 0 && max > hw.tunnelMax {
+		max = hw.tunnelMax
+	}
 	t := &httpTunnel{id: fmt.Sprintf("T%d", i), connect: connect, target: "a.example.test:443", bOK: make(chan string, 1)}
 	t.A = genStream(simnet.NewRand(hw.w.In.Seed, "tA"+t.id), r.Range(0, max), r.Intn(3))
 	t.B = genStream(simnet.NewRand(hw.w.In.Seed, "tB"+t.id), r.Range(0, max), r.Intn(3))
